@@ -82,7 +82,7 @@ def gen_cfgs(ctx, n):
         const = names[2]
         cfg.hyper_changes = [{const: {'damping': Fraction(1, 64), 'factor_decay': Fraction(9, 10), 'kl_clip': Fraction(1, 500),
                                       'lr': Fraction(1, 3)}[const]}]
-        cfg.perturb_ctor = True
+        cfg.perturb_ctor = 'callable' if len(cfgs) % 2 else True
         it = ['f1'] * cfg.accum + ['s']
         cfg.ops = it + ['h:0'] + it + ['v1', 'l11'] + it * 2
         cfgs.append(cfg)
